@@ -1,10 +1,10 @@
-SPECIFICATION LiveSpec
+SPECIFICATION Spec
 CONSTANTS
   MaxN = 3
   S = 2
   CloseOn = "wg"
-  Ann = {1}
-  ErrCheck = FALSE
+  Ann = {}
+  ErrCheck = TRUE
 INVARIANTS TypeOK Conservation CloseAfterDrain EofComplete PerSourceOrder NoStall AllDone BlockedConsumerReleased NoopCloseStartsNothing
-PROPERTIES Terminates
+PROPERTIES Settles LiveTerminates
 CHECK_DEADLOCK FALSE
